@@ -7,19 +7,21 @@ Open Scope N_scope.
 Definition is_ip4 (f : bytes) : bool := Nat.leb 34 (List.length f) && (word_at f 12 =? 2048).
 Definition is_ip6 (f : bytes) : bool := Nat.leb 54 (List.length f) && (word_at f 12 =? 34525).
 
-(* IPv4 version nibble not 4 or IHL < 5; IPv6 version nibble not 6: Parse does not look *)
+(* IPv4 version nibble not 4; IPv6 version nibble not 6: Parse does not look
+   (IHL < 5 was part of this class until /repo 38ef1da made IP4.IsValid reject it) *)
 Definition known_C19_iphdr (f : bytes) : bool :=
-  (is_ip4 f && (negb (at_ f 14 / 16 =? 4) || (at_ f 14 mod 16 <? 5)))
+  (is_ip4 f && negb (at_ f 14 / 16 =? 4))
   || (is_ip6 f && negb (at_ f 14 / 16 =? 6)).
 
 (* ICMPv6 protocol number inside IPv4 / ICMP protocol number inside IPv6: one switch serves both *)
 Definition known_C19_family (f : bytes) : bool :=
   (is_ip4 f && (at_ f 23 =? 58)) || (is_ip6 f && (at_ f 20 =? 1)).
 
-(* IPv4 TotalLength leaves fewer than 8 bytes of ICMP: Parse reads the message to the end of the
-   Ethernet frame instead *)
+(* IPv4 TotalLength leaves fewer than 8 bytes of ICMP (IHL <= TotalLength < IHL + 8): Parse reads
+   the message to the end of the Ethernet frame instead (TotalLength < IHL is rejected since
+   /repo 38ef1da) *)
 Definition known_C19_totallen (f : bytes) : bool :=
-  is_ip4 f && (word_at f 16 <? 4 * (at_ f 14 mod 16) + 8).
+  is_ip4 f && (4 * (at_ f 14 mod 16) <=? word_at f 16) && (word_at f 16 <? 4 * (at_ f 14 mod 16) + 8).
 
 Definition known_C19_frame (f : bytes) : bool :=
   known_C19_iphdr f || known_C19_family f || known_C19_totallen f.
